@@ -49,6 +49,8 @@ def run(prog: Program, rep: Report, tier: str):
                    f"SemiSampler.__len__ returns {show(rets[0]) if rets else '?'}: per-rank streams are not equally long / do "
                    f"not follow the documented length mode", clause="C13.5")
     semi_length(prog, rep)
+    from .c12 import rank_defaults
+    rank_defaults(prog, rep, "C13.5")
     names.check(prog, rep, FILES, clause="C13.G1", floor=12)
 
 
